@@ -14,7 +14,7 @@ import (
 )
 
 func init() {
-	register(&Rule{Name: "RANGE.FORALL", Props: []string{"C10"}, Floor: 2,
+	register(&Rule{Name: "RANGE.FORALL", Props: []string{"C10", "C09"}, Floor: 4,
 		Doc: "the subset test quantifies over every part of its argument: no exit from inside its loops accepts",
 		Run: ruleRangeForall})
 	register(&Rule{Name: "NUM.LESS.FRAC", Props: []string{"C10", "C15"}, Floor: 1,
@@ -50,41 +50,89 @@ func loopBodies(fn *ssa.Function) []*ssa.BasicBlock {
 
 func ruleRangeForall(c *Ctx) []Obligation {
 	const R = "RANGE.FORALL"
-	fn := c.Fn("yang.(YangRange).Contains")
-	if fn == nil {
-		return []Obligation{undecided(R, "subset test", "-", "(YangRange).Contains not found")}
-	}
 	var obs []Obligation
-	bodies := loopBodies(fn)
-	if len(bodies) == 0 {
-		return []Obligation{undecided(R, "Contains: loops over the parts of its argument", c.Pos(fn.Pos()), "no loop found: the subset test has another shape than the one this rule was written for")}
-	}
-	n, after := 0, 0
-	for _, b := range fn.Blocks {
-		r, isR := b.Instrs[len(b.Instrs)-1].(*ssa.Return)
-		if !isR || len(r.Results) != 1 {
+	// the universally quantified predicates of the type resolver: subset of ranges, and the element-wise equalities
+	// that decide whether a derived type changed anything and whether a union member is already listed
+	for _, name := range []string{"yang.(YangRange).Contains", "yang.(YangRange).Equal", "yang.ssEqual", "yang.tsEqual"} {
+		fn := c.Fn(name)
+		short := name[strings.LastIndex(name, ".")+1:]
+		if fn == nil {
+			if short == "Contains" {
+				obs = append(obs, undecided(R, "subset test", "-", name+" not found"))
+			}
 			continue
 		}
-		inside := false
-		for _, body := range bodies {
-			if body.Dominates(b) {
-				inside = true
+		bodies := loopBodies(fn)
+		if len(bodies) == 0 {
+			if short == "Contains" {
+				obs = append(obs, undecided(R, short+": loops over the parts of its argument", c.Pos(fn.Pos()), "no loop found: the predicate has another shape than the one this rule was written for"))
+			}
+			continue
+		}
+		n := 0
+		inBody := func(b *ssa.BasicBlock) bool {
+			for _, body := range bodies {
+				if body.Dominates(b) {
+					return true
+				}
+			}
+			return false
+		}
+		// a result carried in a flag: constants that enter the returned value on an edge from inside a loop
+		seenPhi := map[*ssa.Phi]bool{}
+		var flagEdges func(v ssa.Value)
+		flagEdges = func(v ssa.Value) {
+			phi, isPhi := v.(*ssa.Phi)
+			if !isPhi || seenPhi[phi] {
+				return
+			}
+			seenPhi[phi] = true
+			for i, e := range phi.Edges {
+				pred := phi.Block().Preds[i]
+				if k, isK := e.(*ssa.Const); isK && k.Value != nil && inBody(pred) {
+					n++
+					con := fmt.Sprintf("%s: verdict #%d set inside the loop rejects", short, n)
+					if k.Value.String() == "false" {
+						obs = append(obs, ok(R, con, c.InstrPos(pred.Instrs[len(pred.Instrs)-1]), "flag = false"))
+					} else {
+						obs = append(obs, bad(R, con, c.InstrPos(pred.Instrs[len(pred.Instrs)-1]), "a predicate that must hold for every element is set to true from inside its loop: the elements examined later cannot reject any more"))
+					}
+					continue
+				}
+				flagEdges(e)
 			}
 		}
-		if !inside {
-			after++
-			continue
+		for _, b := range fn.Blocks {
+			r, isR := b.Instrs[len(b.Instrs)-1].(*ssa.Return)
+			if !isR || len(r.Results) != 1 {
+				continue
+			}
+			flagEdges(r.Results[0])
+			early := ""
+			for _, body := range bodies {
+				if body.Dominates(b) {
+					early = "from inside the loop"
+				}
+			}
+			for _, g := range guardsAt(b) {
+				if bo, isB := g.Cond.(*ssa.BinOp); isB && isLenOf(bo.X) && isLenOf(bo.Y) && (bo.Op == token.NEQ && g.Branch || bo.Op == token.EQL && !g.Branch) {
+					early = "on a length mismatch"
+				}
+			}
+			if early == "" {
+				continue
+			}
+			n++
+			con := fmt.Sprintf("%s: exit #%d %s rejects", short, n, early)
+			if k, isK := r.Results[0].(*ssa.Const); isK && k.Value != nil && k.Value.String() == "false" {
+				obs = append(obs, ok(R, con, c.InstrPos(r), "return false"))
+			} else {
+				obs = append(obs, bad(R, con, c.InstrPos(r), "a predicate that must hold for every element answers something other than false before every element has been examined: a restriction with a part outside its parent's set is accepted, or two different member lists compare equal (a union member or a changed restriction is dropped)"))
+			}
 		}
-		n++
-		con := fmt.Sprintf("Contains: exit #%d from inside the loops rejects", n)
-		if k, isK := r.Results[0].(*ssa.Const); isK && k.Value != nil && k.Value.String() == "false" {
-			obs = append(obs, ok(R, con, c.InstrPos(r), "return false"))
-		} else {
-			obs = append(obs, bad(R, con, c.InstrPos(r), "the subset test returns something other than false before every part of its argument has been examined: a restriction with a part outside its parent's set would be accepted"))
+		if n == 0 {
+			obs = append(obs, bad(R, short+": an element that fails is rejected", c.Pos(fn.Pos()), "neither an exit nor a verdict set inside the loops: nothing rejects"))
 		}
-	}
-	if n == 0 {
-		obs = append(obs, bad(R, "Contains: a part that is not covered is rejected", c.Pos(fn.Pos()), "no exit inside the loops: nothing rejects an uncovered part"))
 	}
 	return obs
 }
@@ -568,8 +616,9 @@ func ruleLinkFixpoint(c *Ctx) []Obligation {
 	var site ssa.CallInstruction
 	var host *ssa.Function
 	reach := c.Reach([]*ssa.Function{proc}, nil)
+	inside := c.Reach([]*ssa.Function{inc}, nil) // the linker's own recursion (helpers included)
 	for _, fn := range c.Funcs {
-		if !reach[fn] || fn == inc || fn.Blocks == nil {
+		if !reach[fn] || fn == inc || inside[fn] || fn.Blocks == nil {
 			continue
 		}
 		for _, ci := range c.callsTo(fn, inc) {
@@ -619,8 +668,15 @@ func ruleLinkFixpoint(c *Ctx) []Obligation {
 		if !leaves {
 			continue
 		}
-		bo, isB := ifi.Cond.(*ssa.BinOp)
-		if !isB || (bo.Op != token.EQL && bo.Op != token.NEQ) {
+		// the comparison itself, or a flag that carries it round the loop (for changed := true; changed; { … })
+		var bo *ssa.BinOp
+		backSlice(ifi.Cond, func(x ssa.Value) bool {
+			if b2, isB := x.(*ssa.BinOp); isB && (b2.Op == token.EQL || b2.Op == token.NEQ) && bo == nil {
+				bo = b2
+			}
+			return true
+		})
+		if bo == nil {
 			continue
 		}
 		var counts func(v ssa.Value) bool
@@ -862,6 +918,155 @@ func ruleErrEmptyTest(c *Ctx) []Obligation {
 				obs = append(obs, bad(R, con, c.InstrPos(bo), fmt.Sprintf("the number of errors is tested with `%s %d`: the test either cannot fail / cannot hold, or lets one error through as if there were none", op, k)))
 			}
 		})
+	}
+	return obs
+}
+
+func init() {
+	register(&Rule{Name: "REV.FULLNAME", Props: []string{"C13", "C05"}, Floor: 1,
+		Doc: "a module's full name carries its current revision exactly when it has one (the module table is keyed by it)",
+		Run: ruleRevFullName})
+}
+
+func ruleRevFullName(c *Ctx) []Obligation {
+	const R = "REV.FULLNAME"
+	fn := c.Fn("yang.(*Module).FullName")
+	cur := c.Fn("yang.(*Module).Current")
+	if fn == nil || cur == nil {
+		return []Obligation{undecided(R, "full name", "-", "(*Module).FullName / Current not found")}
+	}
+	con := "FullName is name@revision where the module has a revision, the bare name otherwise"
+	var obs []Obligation
+	decided := false
+	for _, b := range fn.Blocks {
+		r, isR := b.Instrs[len(b.Instrs)-1].(*ssa.Return)
+		if !isR || len(r.Results) != 1 {
+			continue
+		}
+		// does the returned string contain the current revision?
+		var revCall *ssa.Call
+		var walk func(v ssa.Value, d int)
+		walk = func(v ssa.Value, d int) {
+			if d > 6 {
+				return
+			}
+			switch x := v.(type) {
+			case *ssa.BinOp:
+				walk(x.X, d+1)
+				walk(x.Y, d+1)
+			case *ssa.Call:
+				if x.Call.StaticCallee() == cur {
+					revCall = x
+				}
+			}
+		}
+		walk(r.Results[0], 0)
+		if revCall == nil {
+			continue
+		}
+		decided = true
+		under := false
+		for _, g := range guardsAt(b) {
+			bo, isB := g.Cond.(*ssa.BinOp)
+			if !isB || bo.X != ssa.Value(revCall) {
+				continue
+			}
+			if k, isK := bo.Y.(*ssa.Const); isK && k.Value != nil && k.Value.ExactString() == `""` {
+				if bo.Op == token.NEQ && g.Branch || bo.Op == token.EQL && !g.Branch {
+					under = true
+				}
+			}
+		}
+		if under {
+			obs = append(obs, ok(R, con, c.InstrPos(r), `if rev != "" { return name + "@" + rev }`))
+		} else {
+			obs = append(obs, bad(R, con, c.InstrPos(r), "the revision is appended on the path where it is not known to be non-empty: modules with a revision are filed under their bare name (two revisions of one module collide) and modules without one under `name@`"))
+		}
+	}
+	if !decided {
+		obs = append(obs, bad(R, con, c.Pos(fn.Pos()), "no return of FullName contains the current revision: all revisions of a module share one key"))
+	}
+	return obs
+}
+
+func init() {
+	register(&Rule{Name: "INDEX.MADE", Props: []string{"C01", "C07", "C06"}, Floor: 1,
+		Doc: "a constant index into the error list of an entry just made by a constructor stays below the number of errors that constructor always records",
+		Run: ruleIndexMade})
+}
+
+func ruleIndexMade(c *Ctx) []Obligation {
+	const R = "INDEX.MADE"
+	m := c.entryModel()
+	rec := c.errRecorders()
+	var obs []Obligation
+	// constructor → number of error records made unconditionally on the fresh entry
+	always := func(g *ssa.Function) int {
+		n := 0
+		var rets []*ssa.Return
+		eachInstr(g, func(in ssa.Instruction) {
+			if r, isR := in.(*ssa.Return); isR {
+				rets = append(rets, r)
+			}
+		})
+		eachInstr(g, func(in ssa.Instruction) {
+			ci, isC := in.(ssa.CallInstruction)
+			if !isC || loopHeaderOf(in.Block()) != nil {
+				return
+			}
+			cal := ci.Common().StaticCallee()
+			if cal == nil || !rec[cal] || len(ci.Common().Args) == 0 {
+				return
+			}
+			if _, fresh := rootOf(ci.Common().Args[0]).(*ssa.Alloc); !fresh {
+				return
+			}
+			for _, r := range rets {
+				if !dominates(in, r) {
+					return
+				}
+			}
+			n++
+		})
+		return n
+	}
+	for _, fn := range c.Funcs {
+		if fn.Blocks == nil || !c.isRepoFn(fn) {
+			continue
+		}
+		k2 := 0
+		eachInstr(fn, func(in ssa.Instruction) {
+			ia, isI := in.(*ssa.IndexAddr)
+			if !isI {
+				return
+			}
+			k, okk := constInt(ia.Index)
+			if !okk {
+				return
+			}
+			_, f, base := loadedField(ia.X)
+			if f != m.fErrors {
+				return
+			}
+			call, isC := resolveArg(rootOf(base)).(*ssa.Call)
+			if !isC || call.Call.StaticCallee() == nil || !c.isRepoFn(call.Call.StaticCallee()) {
+				return
+			}
+			g := call.Call.StaticCallee()
+			k2++
+			con := fmt.Sprintf("%s: constant index #%d into the errors of a fresh %s() entry", c.FnName(fn), k2, baseName(g))
+			n := always(g)
+			if int(k) < n {
+				obs = append(obs, ok(R, con, c.InstrPos(ia), fmt.Sprintf("index %d < %d error(s) always recorded by the constructor", k, n)))
+			} else {
+				obs = append(obs, bad(R, con, c.InstrPos(ia), fmt.Sprintf("index %d, but the constructor records only %d error(s) on every path: the access runs off the end of the list (panic) whenever this line is reached", k, n)))
+			}
+		})
+	}
+	if len(obs) == 0 {
+		o := ok(R, "no constant index into a constructor-made error list", "-", "nothing to decide")
+		o.Trivial = true
+		obs = append(obs, o)
 	}
 	return obs
 }
